@@ -787,7 +787,9 @@ def rule_R5(ctx, repo, flow):
     ctx.check(ok, "R5", "_get_params:super", "starts from super().get_params(deep=deep)", "_get_params does not start from super().get_params(deep=deep)", ctx.loc(mod, gp))
     # _replace_estimator
     if repl_name is None:
-        raise AnalysisError("anchor missing: the component-replacement helper called from _set_params")
+        ctx.violation("R5", "_replace_estimator", "_set_params never hands (attr, name, value) to a helper that stores the component list back: "
+                      "components cannot be replaced by name", ctx.loc(mod, sp))
+        return
     rp = meta.methods[repl_name]
     sets = [c for c in astq.calls(rp) if astq.call_name(c) == "setattr" and len(c.args) == 3 and dotted(c.args[1]) == "attr"]
     rp_params = astq.param_names(rp, skip_self=True)
@@ -831,6 +833,9 @@ def rule_R5(ctx, repo, flow):
               "rejects duplicate names, names equal to constructor arguments, names containing `__`",
               "_check_names: tests found %s, %d raise sites (need unique, ctor-conflict, separator with one rejection each)" % (sorted(kinds), n_raise),
               ctx.loc(mod, cn))
+    from ._c20_specs import check_names as _check_names_spec
+    _check_names_spec(ctx, repo, rule="R5")
+    _meta_exact(ctx, repo, meta, mod, gp, sp)
     # composites: get_params / set_params pass the same attribute, which is a constructor parameter (or property over one)
     n = 0
     for c in repo.subclasses(meta):
@@ -865,6 +870,91 @@ def rule_R5(ctx, repo, flow):
             ctx.check(fwd and ret_ok, "R5", "%s:%s" % (c.qual, m.name), "%s forwards its arguments to %s and returns its result" % (m.name, helper),
                       "%s.%s does not forward deep/**params to %s or does not return its result" % (c.name, m.name, helper), ctx.loc(c.module, m))
     ctx.count("R5_composites", n)
+
+
+def _meta_exact(ctx, repo, meta, mod, gp, sp):
+    """Exact clauses on the nested get/set helpers, read off path conditions and dataflow."""
+    from ..boolx import Atomizer as At, PathConditions as PC, equivalent as eqv, atom as A, neg as N, show as sh
+    # _get_params: the shallow dict is returned exactly when `deep` is off; the expanded one when it is on
+    g = CFG(gp)
+    upd = [n for n in g.nodes if any(astq.call_name(c) == "update" and dotted(c.func.value) == "out" for c in n.calls())
+           or (isinstance(n.stmt, ast.Assign) and any(isinstance(t, ast.Subscript) and dotted(t.value) == "out" for t in n.stmt.targets))]
+    pc = PC(gp, At())
+    loc = ctx.loc(mod, gp)
+    if not upd or not pc.return_sites:
+        ctx.undecided("R5", "_get_params:deep-switch", "no expansion of / return from the parameter dict found", loc)
+    else:
+        IN, OUT = g.forward_must(lambda n: n in upd)
+        bad = None
+        for st, cond in pc.return_sites:
+            node = g.node_of(st)
+            if node is None or dotted(st.value) != "out":
+                bad = "returns `%s`, not the parameter dict" % (ast.unparse(st.value) if st.value is not None else None)
+                break
+            want = A("deep") if IN[node.id] else N(A("deep"))
+            # conditions of the loops in between are irrelevant: compare on `deep` only
+            ats = sorted(__import__("sa.boolx", fromlist=["atoms_of"]).atoms_of(cond))
+            if "deep" not in ats:
+                bad = "the return at line %d does not depend on `deep` (condition %s)" % (st.lineno, sh(cond))
+                break
+            from ..boolx import evaluate as _evl
+            from itertools import product as _prod
+            others = [a for a in ats if a != "deep"]
+            sat = {d for d in (False, True) for vals in _prod((False, True), repeat=len(others)) if _evl(cond, dict(zip(others, vals), deep=d))}
+            exp = {True} if IN[node.id] else {False}
+            if sat != exp:
+                bad = "the %s dict is returned when deep is %s (line %d)" % ("expanded" if IN[node.id] else "shallow", sorted(sat), st.lineno)
+                break
+        ctx.check(bad is None, "R5", "_get_params:deep-switch", "shallow parameters iff deep is off, component-expanded parameters iff deep is on",
+                  "_get_params: %s" % bad, loc, witness={"call": "get_params(deep=True) / get_params(deep=False)"} if bad else None)
+    inner = [c for c in astq.calls(gp) if astq.call_name(c) == "get_params" and not (isinstance(c.func.value, ast.Call) and dotted(c.func.value.func) == "super")]
+    ok = bool(inner) and all(all(astq.const_value(k.value, "?") is True for k in c.keywords if k.arg == "deep")
+                             and all(astq.const_value(a, "?") is True for a in c.args[:1]) for c in inner)
+    ctx.check(ok, "R5", "_get_params:component-deep", "each component is asked for its deep parameters",
+              "_get_params reads a component's parameters with deep off: `name__sub__param` of a nested composite is not listed", loc)
+    # _set_params: the names that select component replacement are the names of the component list read from the attribute
+    loc = ctx.loc(mod, sp)
+    src_ok = None
+    for n in astq.walk_no_nested(sp):
+        if isinstance(n, ast.Assign) and isinstance(n.targets[0], (ast.Tuple, ast.List)) and n.targets[0].elts and isinstance(n.value, ast.Call) \
+                and astq.call_name(n.value) == "zip" and len(n.value.args) == 1 and isinstance(n.value.args[0], ast.Starred):
+            first = dotted(n.targets[0].elts[0])
+            src = n.value.args[0].value
+            if isinstance(src, ast.Name):
+                vals = astq.assigned_values(sp, src.id)
+                src = vals[-1] if vals else src
+            from_attr = isinstance(src, ast.Call) and astq.call_name(src) == "getattr" and len(src.args) >= 2 \
+                and dotted(src.args[0]) == "self" and dotted(src.args[1]) == "attr"
+            used = any(isinstance(x, ast.Compare) and len(x.ops) == 1 and isinstance(x.ops[0], ast.In) and dotted(x.comparators[0]) == first
+                       for x in astq.walk_no_nested(sp))
+            if used:
+                src_ok = from_attr
+    ctx.check(src_ok, "R5", "_set_params:names-source", "component names are the first fields of the attribute's current list",
+              "the names tested for component replacement are not taken from zip(*getattr(self, attr))" if src_ok is False else
+              "no `names, _ = zip(*<component list>)` feeding the `name in names` test: components are never replaced by name", loc)
+    # tuner guard: exact conditions
+    tuner = repo.cls("sktime/forecasting/model_selection/_tune.py:BaseGridSearch")
+    tf = tuner.methods.get("check_is_fitted")
+    if tf is not None:
+        tloc = ctx.loc(tuner.module, tf)
+        pname = astq.param_names(tf, skip_self=True)
+        pct = PC(tf, At(), mark=lambda st: isinstance(st, ast.Expr) and isinstance(st.value, ast.Call) and astq.call_name(st.value) == "check_is_fitted"
+                 and isinstance(st.value.func.value, ast.Call) and dotted(st.value.func.value.func) == "super")
+        nf = ("const", False)
+        from ..boolx import disj as _dj, conj as _cj
+        for st_, cond_ in pct.raise_sites:
+            nm = dotted(st_.exc.func) if isinstance(st_.exc, ast.Call) else dotted(st_.exc)
+            if nm and nm.split(".")[-1] == "NotFittedError":
+                nf = _dj(nf, cond_)
+        if pname:
+            spec = _cj(N(A("isnone(%s)" % pname[0])), N(A("self.refit")))
+            r, wit = eqv(nf, spec)
+            ctx.check(bool(r), "R4", tuner.qual + ".check_is_fitted:refit-guard", "raises NotFittedError iff a method name is given and refit is off",
+                      "tuner guard raises NotFittedError iff %s; expected iff %s (differing case %s)" % (sh(nf), sh(spec), wit), tloc, witness=wit)
+        always = any(eqv(c, ("const", True))[0] for _, c in pct.marked)
+        ctx.check(always, "R4", tuner.qual + ".check_is_fitted:base-guard", "the estimator's own fitted-state guard runs unconditionally",
+                  "the tuner guard does not call super().check_is_fitted() on every path: an unfitted tuner passes and fails later with an "
+                  "unrelated AttributeError", tloc)
 
 
 def _component_view(ctx, repo, c, attr, params):
